@@ -81,6 +81,8 @@ def spectra(ctx):
     n_cases = 300 if ctx.tier == 'quick' else 2500
     twopi = 2 * np.pi
     corpus = [(np.array([1.0, -2.0, 1.0]), 0.5, [0.0, 1.0, 3.0, 4.0], 0.05, 'corpus'),          # dyadic: T = 3 = 6 dt exactly (no substitution)
+              (np.array([1.0, -2.0, 1.0, 0.5, -1.0, 2.0]), 0.25, [0, 1, 2, 3], 0.05, 'corpus-int-periods'),   # Python ints, leading 0
+              (np.array([1.0, -2.0, 1.0, 0.5, -1.0, 2.0]), 0.25, [1, 2, 5], 0.05, 'corpus-int-periods'),
               (np.array([0.0, 1.0, 0.0, 0.0, 0.0, 0.0, 0.0, 0.0]), 0.25, [1.25, 1.5, 1.75], 0.0, 'corpus'),
               (np.array([1.0, 1.0]), 1.0, [0.5], 0.05, 'corpus-F03-2'),
               (np.array([2.0]), 0.5, [0.0, 1.0], 0.05, 'corpus')]
@@ -101,6 +103,8 @@ def spectra(ctx):
                 ratios = [round(r * 4) / 4 if r < 100 else float(round(r)) for r in ratios]
                 ratios = [r if r > 0 else 0.25 for r in ratios]
             periods = [r * dt for r in ratios]
+            if i % 11 == 0:
+                periods = [float(rng.randint(1, 9)) for _ in range(npd)]     # integral periods (also sent as ints below)
             lead0 = rng.random() < 0.3
             if lead0:
                 periods = [0.0] + periods
@@ -121,6 +125,16 @@ def spectra(ctx):
         u, v, ac = rr[1]
         res_p = {c: call_impl(sdof.pseudo_response_spectra, a, dt, mkcont(c, periods), xi) for c in ('list', 'tuple', 'array')}
         res_t = {c: call_impl(sdof.true_response_spectra, a, dt, mkcont(c, periods), xi) for c in ('list', 'tuple', 'array')}
+        if all(float(T) == int(T) for T in periods):
+            # integer-valued periods given as Python ints / an integer ndarray must give the float results (w = 2*pi/T is not an integer)
+            ip = [int(T) for T in periods]
+            for cname, cont in (('int list', ip), ('int tuple', tuple(ip)), ('int array', np.array(ip, dtype=int))):
+                for fn_name, ref in (('pseudo_response_spectra', res_p['array']), ('true_response_spectra', res_t['array'])):
+                    ri = call_impl(getattr(sdof, fn_name), a, dt, cont, xi)
+                    ctx.hist('integer period containers')
+                    ctx.oracle(f'C03 {fn_name}: integer-typed period containers give the same spectra as float periods',
+                               ref[0] == 'ok' and same_triple(ri, ref), {**inputs, 'container': cname},
+                               detail={'got': ri[1] if ri[0] == 'ok' else ri, 'want': ref[1] if ref[0] == 'ok' else ref})
         ctx.oracle('C03.b pseudo_response_spectra: identical results for list, tuple and array period containers',
                    res_p['array'][0] == 'ok' and same_triple(res_p['list'], res_p['array']) and same_triple(res_p['tuple'], res_p['array']), inputs,
                    detail={c: (r[1] if r[0] == 'err' else 'ok') for c, r in res_p.items()})
